@@ -1,8 +1,9 @@
 #!/bin/bash
 # tools/seed_eval.sh <id> [extra check ids...] : validate the seeded change in /tmp/seed_<id>/SEED and run our checks against it
-id=$1; shift
-wt=/tmp/seed_$id
-dst=/verif/seeded/$id
+# usage: seed_eval.sh <id> [check ids...]            (worktree /tmp/seed_<id>, stored as seeded/<id>)
+#        seed_eval.sh -w <worktree> <name> <check ids...>   (stored as seeded/<name>; the first check id is required)
+if [ "$1" = "-w" ]; then wt=$2; name=$3; shift 3; id=$1; shift; else id=$1; shift; wt=/tmp/seed_$id; name=$id; fi
+dst=/verif/seeded/$name
 mkdir -p $dst
 git -C $wt diff -- func_adl_xAOD > $dst/patch.diff
 [ -s $dst/patch.diff ] || { echo "EMPTY PATCH"; exit 2; }
